@@ -10,7 +10,7 @@ From CGV Require Import Base.PyBase Base.PyVal Gen.FragGen Dialect.DialectImpl F
      Frag.StripFacts Frag.FragProofs Frag.FragTextX Frag.FragProofsX Frag.FragStages Frag.FragSmall Frag.RingProofs
      Gen.SmilesGen Frag.SmilesParse Frag.SmilesSpec Frag.SmilesProofs Frag.SmilesIndex Frag.SmilesRelabel Frag.SmilesPerm
      Frag.Template Frag.TemplateProofs Frag.TemplateFinal Frag.TemplateGraph Frag.TemplateCompose Frag.SmilesReverse Frag.SmilesPermR
-     Frag.FragTextW Frag.FragProofsW Frag.SmilesReroot Frag.SmilesRewrite Frag.SmilesPermX Frag.SmilesPermG Frag.TemplateChiral Frag.TemplateChiralProofs.
+     Frag.FragTextW Frag.FragProofsW Frag.SmilesReroot Frag.SmilesRewrite Frag.SmilesPermX Frag.SmilesPermG Frag.SmilesWf Frag.TemplateChiral Frag.TemplateChiralProofs.
 From CGV Require Import Base.NxGraph Compose.CutModel Compose.CutSpecDefs.
 Local Open Scope nat_scope.
 Import ListNotations.
@@ -626,6 +626,37 @@ Example C01_start_atom_rewrite_nonvacuous :
      g_edges G = [(0, 1, VInt 1); (0, 2, VInt 1); (0, 3, VInt 1); (3, 4, VInt 2); (0, 5, VInt 1)] /\
      g_edges H = [(0, 1, VInt 1); (1, 2, VInt 1); (1, 3, VInt 1); (3, 4, VInt 2); (1, 5, VInt 1)]).
 Proof. exact rewrite_example. Qed.
+(** well-formedness carries over: the re-rooted text and the text with two groups exchanged are in [wf_smiles] when
+    the original is, so the text-level theorems need ONE well-formed writing ([wf_end] = the automaton of [wf_toks]) *)
+Theorem C01_reroot_wf : forall a P b x R, is_atomtok a = true -> is_atomtok x = true -> blocksb false 0 P = true ->
+  wf_smiles (rr_src a P b x R) = true -> wf_smiles (rr_dst a P b x R) = true.
+Proof. exact reroot_wf. Qed.
+Theorem C01_swap_wf : forall x pa pb y, groupb pa = true -> groupb pb = true ->
+  wf_smiles (x ++ pa ++ pb ++ y) = true -> wf_smiles (x ++ pb ++ pa ++ y) = true.
+Proof. exact swap_wf. Qed.
+Theorem C01_start_atom_reroot_text : forall a P b x R,
+  wf_smiles (rr_src a P b x R) = true ->
+  is_atomtok a = true -> is_atomtok x = true -> blocksb false 0 P = true ->
+  let s := rot (Datatypes.S (count_atoms P)) in
+  wf_smiles (rr_dst a P b x R) = true /\
+  match smiles_parse (render_smiles false (rr_src a P b x R)), smiles_parse (render_smiles false (rr_dst a P b x R)) with
+  | Ok G, Ok H => exists n, graph_uperm s n G H /\ sigma_ok s n
+  | Err e, Err e' => e = e'
+  | _, _ => False
+  end.
+Proof. exact reroot_step_text1. Qed.
+Theorem C01_branch_order_anyrings_text : forall x pa pb y g c,
+  wf_smiles (x ++ pa ++ pb ++ y) = true ->
+  grun false ginit x = Ok g -> q_cur g = Some c -> q_pend g = None ->
+  is_rblock pa = true -> is_rblock pb = true -> disj pa pb ->
+  let s := swap_sigma (q_n g) (count_atoms pa) (count_atoms pb) in
+  wf_smiles (x ++ pb ++ pa ++ y) = true /\
+  match smiles_parse (render_smiles false (x ++ pa ++ pb ++ y)), smiles_parse (render_smiles false (x ++ pb ++ pa ++ y)) with
+  | Ok G, Ok H => exists n, graph_perm s n G H /\ sigma_ok s n
+  | Err e, Err e' => e = e'
+  | _, _ => False
+  end.
+Proof. exact gswap_branches_text1. Qed.
 (** the documented bond orders are the ones of the installed pysmiles *)
 Theorem C13_smiles_orders : forall b, smiles_bond_to_order_lookup [bchar b] = Ok (border b).
 Proof. exact smiles_order_bchar. Qed.
@@ -668,3 +699,5 @@ Print Assumptions C13_chiral_tuple_spec.
 Print Assumptions C13_partial_wildcard.
 Print Assumptions C01_branch_order_anyrings_partial.
 Print Assumptions C01_branch_order_anyrings_text_partial.
+Print Assumptions C01_start_atom_reroot_text.
+Print Assumptions C01_branch_order_anyrings_text.
